@@ -56,6 +56,13 @@ func newStringExtractor(position stringExtractorPosition, patternParts []string,
 	case len(targetWildcard) == 0:
 		return emptyExtractor, fmt.Errorf("patternParts[1] must not be empty")
 	case targetWildcard == "*":
+		// without a table of valid chars the far boundary is the only thing that ends the label
+		if position == extractFromStart && len(rightBoundary) == 0 {
+			return emptyExtractor, fmt.Errorf("'*' must be followed by a right boundary")
+		}
+		if position == extractFromEnd && len(leftBoundary) == 0 {
+			return emptyExtractor, fmt.Errorf("'*' must be preceded by a left boundary")
+		}
 		validCharTable = nil
 	case len(targetWildcard) < 2 || targetWildcard[0] != '[' || targetWildcard[len(targetWildcard)-1] != ']':
 		return emptyExtractor, fmt.Errorf("patternParts[1] must be '*' or '[...]'")
